@@ -1497,8 +1497,10 @@ fn calculate_stableswap_d(
     // Calculate ann = amp * n_coins
     let ann = calculate_ann(amp, n_coins)?;
 
-    // Use newton_raphson_iterate for the approximation
-    let precision_threshold = Decimal256::one();
+    // Use newton_raphson_iterate for the approximation. D is expressed in whole tokens here, so the
+    // iteration must go on well below one token: stopping at a step of 1.0 leaves D (and every quote
+    // derived from it) off by thousands of units on pools holding less than ~10^5 tokens
+    let precision_threshold = Decimal256::from_ratio(1u128, 1_000_000_000_000u128);
 
     newton_raphson_iterate(
         sum_pools,
